@@ -172,7 +172,8 @@ def write_case(case, d):
         name, ring, pos = a[0], a[1], a[2]
         kw = a[3]
         kws = ', '.join(f'{k}={_fmt(float(v))}' for k, v in kw.items())
-        out.append(f'        {name} = {ring}, {pos}, {pos}, {kws}')
+        pos_hi = a[4] if len(a) > 4 else pos      # optional position range
+        out.append(f'        {name} = {ring}, {pos}, {pos_hi}, {kws}')
     path = os.path.join(d, 'input.txt')
     with open(path, 'w') as f:
         f.write('\n'.join(out) + '\n')
